@@ -181,6 +181,22 @@ def check_repro(c):
         s2 = construct(dict(c["ops"][0], n=3, nh=3))
         w2, d2 = params_flat(s2), s2.sample(1, num_samples=64)
         require(not torch.equal(w1, w2), "seed-ignored:init", f"different seeds {c['seed']} / {c['seed2']} gave identical initial weights")
+        # ... also after loading parameters from a file written earlier (at some other point of the random stream)
+        import io
+        buf = io.BytesIO()
+        torch.manual_seed(4242)
+        donor = construct(dict(c["ops"][0], n=3, nh=3))
+        donor.sample(1, num_samples=3)
+        donor.save(buf)
+        draws = []
+        for sd in (c["seed"], c["seed2"], c["seed"]):
+            seed_lib(sd, c.get("seed_form", "explicit"))
+            tgt = construct(dict(c["ops"][0], n=3, nh=3))
+            buf.seek(0)
+            tgt.load(buf)
+            draws.append(tgt.sample(1, num_samples=64))
+        require(torch.equal(draws[0], draws[2]), "not-reproducible:sample-after-load", "seed, construct, load(file), sample is not reproducible")
+        require(not torch.equal(draws[0], draws[1]), "seed-ignored:sample-after-load", "after load(file) two different seeds give identical samples (the file overrides the seeded random stream)")
         require(not torch.equal(d1, d2), "seed-ignored:samples", "different seeds gave identical 192-bit samples")
     kinds = {o["op"] for o in c["ops"]}
     return {"nontrivial": "fit" in kinds and bool(kinds & {"sample", "statistics"}), "labels": sorted("op=" + k for k in kinds)}
